@@ -436,7 +436,30 @@ class TransactionManager(Elaboratable):
         def maximal(group: frozenset[TBody]):
             return not any(group.issubset(group2) and group != group2 for group2 in tr_simultaneous)
 
-        final_simultaneous = set(group for group in tr_simultaneous if maximal(group) and not group & never_running)
+        # Every simultaneity relation must hold inside a group: when a group contains a caller of one side, it has to
+        # contain a caller of the other side as well, or of one of its explicitly declared alternatives
+        # (simultaneous_alternatives). A group which cannot satisfy this (e.g. the ends of a chain of simultaneous
+        # pairs conflict with each other, so the whole chain was split) would run one side without the other.
+        alternatives = defaultdict[Body, set[Body]](set)
+        for elem in method_map.methods_and_transactions:
+            if elem.independent_list:
+                alt_class = {elem, *elem.independent_list}
+                for member in alt_class:
+                    alternatives[member] |= alt_class
+
+        def satisfied(group: frozenset[TBody]):
+            for elem in method_map.methods_and_transactions:
+                if not group & frozenset(method_map.transactions_for(elem)):
+                    continue
+                for sim_elem in elem.simultaneous_list:
+                    stand_ins = {sim_elem} | alternatives[sim_elem]
+                    if not any(group & frozenset(method_map.transactions_for(alt)) for alt in stand_ins):
+                        return False
+            return True
+
+        final_simultaneous = set(
+            group for group in tr_simultaneous if maximal(group) and not group & never_running and satisfied(group)
+        )
 
         # step 4: convert transactions to methods
         joined_transactions = set[TBody]().union(*final_simultaneous)
